@@ -50,7 +50,7 @@ MANIFEST = {
 }
 MODULES = ["PrimaiteModel.Props.C16", "PrimaiteModel.Props.C16Conn", "PrimaiteModel.Props.C16Transport",
            "PrimaiteModel.Props.C16Timeout", "PrimaiteModel.Props.C16Admin", "PrimaiteModel.Props.C16Local",
-           "PrimaiteModel.Props.C16Chain"]
+           "PrimaiteModel.Props.C16Chain", "PrimaiteModel.Props.C16Ends"]
 EXE = "drv_c16"
 
 
@@ -171,6 +171,7 @@ def run(ctx: Ctx):
                        "is compared after every operation; non-trivial = at least one remote session was opened and at least one "
                        "operation was refused; distinct by canonical JSON")
     _runtime_inventory(ctx)
+    fam_rng_pc = ctx.rng.fork("powercycle")
     cases: List[Tuple[str, dict]] = []
     for f in sorted((VERIF / "corpus" / "C16").glob("*.json")):
         cases.append(("corpus:" + f.name, json.loads(f.read_text())["case"]))
@@ -215,6 +216,16 @@ def run(ctx: Ctx):
         cases.append((f"exhmedium:1:{k}", c))
     for k, c in enumerate(rig.exhaustive_cases(cfgm, [], 2, rig.medium_alphabet())):
         cases.append((f"exhmedium:0:{k}", c))
+    # which session-ending event works in which service state
+    cfge = dict(base_cfg, lto=3, rto=2)
+    for k, c in enumerate(rig.exhaustive_cases(cfge, rig.ENDS_PREFIX, 3, rig.ends_alphabet())):
+        cases.append((f"exhends:{k}", c))
+    # sessions across a power cycle of the target (time-outs longer than the cycle)
+    for k in range(ctx.scale(60, 600)):
+        pr = fam_rng_pc.fork(str(k))
+        cfgp = {"n": 2 + pr.below(2), "su": pr.range(0, 2), "sd": pr.range(0, 2), "rd": 1, "max": 2, "lto": 9, "rto": pr.choice([5, 6, 9]),
+                "topo": pr.choice(["switch", "routed"])}
+        cases.append((f"powercycle:{k}", {"cfg": cfgp, "ops": rig.power_cycle_story(pr, cfgp)}))
     # a node commanding itself through its gateway
     cfgs = dict(base_cfg, topo="routed", su=0, sd=0)
     for k, c in enumerate(rig.exhaustive_cases(cfgs, [dict(rig.self_alphabet()[0])], 3, rig.self_alphabet())):
@@ -308,3 +319,4 @@ def run(ctx: Ctx):
                f"{len(cases) - oracle_ok} of {len(cases)} traces fail the property's oracle")
     ctx.oblige("model never ran out of fuel", "correspondence", ctx.hist.get("model-out-of-fuel", 0) == 0)
     ctx.count("half-open-logins(session on the target, client told failure)", rig.HALF_OPEN["n"])
+    ctx.count("commands-executed-on-a-session-that-survived-a-power-cycle-of-its-node(observation)", rig.POWER_CYCLE["n"])
